@@ -449,6 +449,9 @@ pub enum SourceKind {
     Slice,
     Chunked(usize),
     Growable,
+    /// short reads, with `ErrorKind::Interrupted` reported on every k-th call (invisible by the
+    /// `Read` contract: a reader retries it)
+    Interrupted(usize, usize),
 }
 
 /// Run a sequence on the real reader and on the model; compare every observation, then drain.
@@ -467,6 +470,12 @@ pub fn check_sequence(data: &[u8], src: SourceKind, ops: &[Op]) -> Result<(u64, 
             }
             SourceKind::Chunked(c) => {
                 let mut r = H263Reader::from_source(Chunked::new(data, c));
+                guard(|| exec(&mut r, ops, false, got, &|_| {})).map_err(|p| format!("reader panicked: {}", p))?.ok();
+                Ok(drain_fast(&mut r))
+            }
+            SourceKind::Interrupted(c, k) => {
+                let schedule: Vec<u8> = (0..k.max(1)).map(|i| if i == 0 { 2 } else { 0 }).collect();
+                let mut r = H263Reader::from_source(Flaky::new(data, c, schedule, false));
                 guard(|| exec(&mut r, ops, false, got, &|_| {})).map_err(|p| format!("reader panicked: {}", p))?.ok();
                 Ok(drain_fast(&mut r))
             }
@@ -724,9 +733,10 @@ fn random_case(g: &mut Gen) -> Verdict {
 }
 
 fn random_case_with(g: &mut Gen, allow_long: bool) -> Verdict {
-    let src = match g.below(3) {
-        0 => SourceKind::Slice,
-        1 => SourceKind::Chunked(g.range(1, 3) as usize),
+    let src = match g.below(7) {
+        0 | 1 => SourceKind::Slice,
+        2 | 3 => SourceKind::Chunked(g.range(1, 3) as usize),
+        4 => SourceKind::Interrupted(g.range(1, 3) as usize, g.range(1, 5) as usize),
         _ => SourceKind::Growable,
     };
     // most sources are short (every bit position matters); some are medium; a few are tens of
@@ -755,6 +765,7 @@ fn random_case_with(g: &mut Gen, allow_long: bool) -> Verdict {
                 SourceKind::Slice => "source: slice",
                 SourceKind::Chunked(_) => "source: short reads",
                 SourceKind::Growable => "source: growable",
+                SourceKind::Interrupted(..) => "source: short reads with interrupted calls",
             }];
             if start_ops {
                 l.push("has start-code recognition");
